@@ -561,7 +561,7 @@ pub fn run(ctx: &mut Ctx) -> Result<(), Violation> {
     let mut progs = table_programs();
     let table_n = progs.len();
     if ctx.tier == Tier::Thorough {
-        progs.extend(random_programs(ctx.seed, 2000));
+        progs.extend(random_programs(ctx.seed, 8000));
     } else {
         progs.extend(random_programs(ctx.seed, 120));
     }
